@@ -401,6 +401,12 @@ def replay_codes(ctx, spec, f):
     outs = []
     rep = False
     if trip is not None:
+        # the solver's codes first; a wiring mismatch is structural, so codes at the range boundaries are probed as well
+        # (replay only confirms a violation of the property as written, it never decides)
+        k8 = 1 << (bd - 8)
+        mid = 1 << (bd - 1)
+        edge = sorted(set([0, 1, 16 * k8, 16 * k8 + 1, mid, 235 * k8, 236 * k8, 238 * k8, 240 * k8, 240 * k8 + 1, (1 << bd) - 1]))
+        trip = list(trip) + [(mid, e, mid) for e in edge] + [(mid, mid, e) for e in edge] + [(e, mid, mid) for e in edge]
         for mc in mcs:
             for (y, u, v) in trip:
                 for what in ("dec", "rt"):
